@@ -242,7 +242,7 @@ def validate(ctx, trace_path, n_begin, strict=False, timeout=900):
     jopts = ["-XX:TieredStopAtLevel=1"] if (n_begin or 0) < 8000 else []
     r = _tlc.run("ConfTrace", "ConfTrace.cfg" if strict else "ConfTrace_all.cfg", workers=1, timeout=timeout,
                  env={"TRACE": trace_path}, heap="2g", capture_printed=False,
-                 java_opts=jopts + ["-XX:ParallelGCThreads=2"])
+                 java_opts=jopts + ["-XX:ParallelGCThreads=2", "-Xss64m"])
     agg = ctx.cov.setdefault("trace_validation", {"tlc_runs": 0, "steps_judged": 0, "wall_s": 0.0})
     agg["tlc_runs"] += 1
     agg["steps_judged"] += max(r.distinct - 1, 0)
